@@ -58,6 +58,7 @@ SPEC = {
         'AITB.POMDP.backup_chain_sound', 'AITB.POMDP.pbvi_perseus_sound', 'AITB.POMDP.perseus_infinite_sound',
         'AITB.POMDP.blindSub_le_mdpSuper', 'AITB.POMDP.lowerRef_le_upperRef', 'AITB.POMDP.blind_fast_start_unsafe_witness',
         'AITB.POMDP.qmdp_iter_upper', 'AITB.POMDP.qmdp_finite_upper', 'AITB.POMDP.qmdpStep_sound', 'AITB.POMDP.sawtooth_form_isInterp',
+        'AITB.POMDP.weighted_form_isInterp', 'AITB.POMDP.sawtooth_sound', 'AITB.POMDP.lpInterp_sound',
         'AITB.POMDP.iterHV_eq', 'AITB.POMDP.upperRefV_eq', 'AITB.POMDP.lowerRefV_eq',
         'AITB.POMDP.mW_valid', 'AITB.POMDP.mW_ref_superSol', 'AITB.POMDP.ΓW_sound', 'AITB.POMDP.conservative_skip_counterexample',
     ],
